@@ -87,6 +87,7 @@ static mode_t harness_umask(mode_t m);
 
 #define C2S_HEX_LIMIT 30000  /* longer client streams are reported by length + crc32 only */
 #define MAX_TIMEOUTS 3       /* after that many hanging cases the rest of the batch is answered `skipped` */
+#define MULTI_LIMIT_MS 30000 /* one `multi` case, all receivers together (generous: the machine may be loaded) */
 static int ntimeouts = 0;
 
 static int hexval(int c)
@@ -288,7 +289,7 @@ static void reap(pid_t pid, int *rc, int *sig)
 {
     int st = 0;
     *rc = -1; *sig = 0;
-    for (int i = 0; i < 400; i++) {          /* up to ~4 s, then kill */
+    for (int i = 0; i < 1500; i++) {         /* up to ~15 s, then kill */
         pid_t r = waitpid(pid, &st, WNOHANG);
         if (r == pid) goto got;
         if (r < 0) return;
@@ -354,7 +355,7 @@ static void op_sink(char *rest)
     dyn_add(&a.log, stream, sl);
     dyn_t errlog = { NULL, 0, 0 };
     dyn_add(&errlog, "", 0);
-    int to = pump(&a, &b, fdmode == 0, 0, perr[0], &errlog, 10000);
+    int to = pump(&a, &b, fdmode == 0, 0, perr[0], &errlog, 25000);
     int rc, sig;
     if (to < 0) { kill(pid, SIGKILL); ntimeouts++; }
     reap(pid, &rc, &sig);
@@ -407,7 +408,7 @@ static void op_rt(char *rest)
     dir_t b = { ss[0], sc[0], { NULL, 0, 0 }, 0, 0, 0 };   /* server -> client */
     dyn_t errlog = { NULL, 0, 0 };
     dyn_add(&errlog, "", 0);
-    int to = pump(&a, &b, 1, 1, perr[0], &errlog, 12000);
+    int to = pump(&a, &b, 1, 1, perr[0], &errlog, 30000);
     int crc, csig, src, ssig;
     if (to < 0) { kill(cpid, SIGKILL); kill(spid, SIGKILL); ntimeouts++; }
     reap(cpid, &crc, &csig);
@@ -571,19 +572,19 @@ static void multi_child(const char *jail, const char *cwd, int p, int y, int um,
         for (int x = 0; x < 2 && !to; x++) {
             cs[ab[x]].upark = 1;
             if (pthread_create(&cs[ab[x]].th, NULL, conn_thread, &cs[ab[x]]) != 0) _exit(97);
-            if (wait_quiet(cs, k, ab[x], 0, &t0, 8000) < 0) to = 1;
+            if (wait_quiet(cs, k, ab[x], 0, &t0, MULTI_LIMIT_MS) < 0) to = 1;
             if (__atomic_load_n(&cs[ab[x]].parked, __ATOMIC_SEQ_CST)) was_parked = 1;
         }
         for (int x = 0; x < 2 && !to; x++) {
             __atomic_store_n(&cs[ab[x]].urelease, 1, __ATOMIC_SEQ_CST);
             while (__atomic_load_n(&cs[ab[x]].parked, __ATOMIC_SEQ_CST)) usleep(50);
-            if (wait_quiet(cs, k, ab[x], 0, &t0, 8000) < 0) to = 1;
+            if (wait_quiet(cs, k, ab[x], 0, &t0, MULTI_LIMIT_MS) < 0) to = 1;
         }
     }
     for (int i = 0; i < k && !to; i++) {
         if (i == ua || i == ub) continue;
         if (pthread_create(&cs[i].th, NULL, conn_thread, &cs[i]) != 0) _exit(97);
-        if (wait_quiet(cs, k, i, 0, &t0, 8000) < 0) to = 1;
+        if (wait_quiet(cs, k, i, 0, &t0, MULTI_LIMIT_MS) < 0) to = 1;
     }
     for (int j = 0; j < maxch && !to; j++)
         for (int i = 0; i < k && !to; i++) {
@@ -595,7 +596,7 @@ static void multi_child(const char *jail, const char *cwd, int p, int y, int um,
                 if (w <= 0) break;
                 off += (size_t) w;
             }
-            if (wait_quiet(cs, k, i, 0, &t0, 8000) < 0) to = 1;
+            if (wait_quiet(cs, k, i, 0, &t0, MULTI_LIMIT_MS) < 0) to = 1;
             if (ra >= 0 && !race_release && __atomic_load_n(&cs[ra].parked, __ATOMIC_SEQ_CST)) {
                 was_parked = 1;
                 if (base_b < 0)
@@ -604,18 +605,18 @@ static void multi_child(const char *jail, const char *cwd, int p, int y, int um,
                     /* B has been through an _error() of its own since A was parked: A continues */
                     __atomic_store_n(&race_release, 1, __ATOMIC_SEQ_CST);
                     while (__atomic_load_n(&cs[ra].parked, __ATOMIC_SEQ_CST)) usleep(50);
-                    if (wait_quiet(cs, k, ra, 0, &t0, 8000) < 0) to = 1;
+                    if (wait_quiet(cs, k, ra, 0, &t0, MULTI_LIMIT_MS) < 0) to = 1;
                 }
             }
         }
     if (ra >= 0 && !race_release) {
         __atomic_store_n(&race_release, 1, __ATOMIC_SEQ_CST);
         while (__atomic_load_n(&cs[ra].parked, __ATOMIC_SEQ_CST)) usleep(50);
-        if (!to && wait_quiet(cs, k, ra, 0, &t0, 8000) < 0) to = 1;
+        if (!to && wait_quiet(cs, k, ra, 0, &t0, MULTI_LIMIT_MS) < 0) to = 1;
     }
     for (int i = 0; i < k && !to; i++) {
         shutdown(cs[i].pfd, SHUT_WR);
-        if (wait_quiet(cs, k, i, 1, &t0, 8000) < 0) to = 1;
+        if (wait_quiet(cs, k, i, 1, &t0, MULTI_LIMIT_MS) < 0) to = 1;
     }
     drain_all(cs, k);
     FILE *res = fdopen(resfd, "w");
@@ -676,7 +677,7 @@ static void op_multi(char *rest)
     dyn_t errlog = { NULL, 0, 0 };
     dyn_add(&errlog, "", 0);
     dyn_add(&a.log, "", 0);
-    int to = pump(&a, &b, 0, 0, perr[0], &errlog, 40000);
+    int to = pump(&a, &b, 0, 0, perr[0], &errlog, 90000);
     int rc, sig;
     if (to < 0) { kill(pid, SIGKILL); ntimeouts++; }
     reap(pid, &rc, &sig);
